@@ -199,3 +199,16 @@ Arguments ArgDict {R}. Arguments ArgText {R}.
 Definition cube_response {R} (a : rarg R) : rjson R :=
   let j := match a with ArgDict j => j | ArgText j => j end in
   match j with JEnvelope v => v | JResp _ => j end.
+
+(* ---- rendering ------------------------------------------------------------------------------ *)
+Local Open Scope Z_scope.
+Definition r_aval (v : aval) : list Z :=
+  match v with
+  | VElems l => 0 :: r_lst (r_option r_eval) l
+  | VItems l => 1 :: r_natl l
+  end.
+Definition r_reads (l : list (res aval)) : list Z := r_lst (r_res r_aval) l.
+Definition r_pkind (k : pkind) : list Z := match k with Nub => [0] | Strand => [1] | Slice => [2] end.
+Definition r_pkinds (l : list (list pkind)) : list Z := r_lst (r_lst r_pkind) l.
+Definition dicts_of (l : list xf) : nat -> xf := fun i => nth i l (mk_xf None None None None).
+Definition ndims_of (l : list nat) : nat -> nat := fun i => nth i l 0%nat.
